@@ -259,3 +259,63 @@ def memory_rules(ck, rid, lang, where):
         ck.ob(rid, "mem.get:runs", False, where, "the memory model cannot build its term: %s" % e)
     except Undetermined as e:
         raise AnalysisError("%s memory model: construct not understood by the partial evaluator (%s)" % (lang, e))
+
+
+# ---------------------------------------------------------------------------------------------------------------------
+# the C translator, decided on the text it emits (operands symbolic)
+
+def _pow2(n):
+    n = max(n, 8)
+    p = 1
+    while p < n:
+        p <<= 1
+    return p
+
+
+def c_compare_rules(ck, rid, where):
+    """Each native comparison is emitted as ((CAST)a OP (CAST)b)?1:0 with OP the C token of the comparison, CAST intN_t for the signed
+    and uintN_t for the unsigned / equality ones, N the C integer width holding the operands, and both operands extended to N."""
+    import re
+    REF = {"==": ("==", "u"), "<u": ("<", "u"), "<=u": ("<=", "u"), "<s": ("<", ""), "<=s": ("<=", "")}
+    try:
+        for op, (tok, sgn) in sorted(REF.items()):
+            for asz in (8, 12, 32, 64):
+                t = tt.c_term(ck.repo, op, 2, 1, arg_sizes=[asz, asz])
+                text, terms = tt.ctext_flat(t)
+                W = _pow2(asz)
+                m = re.match(r"^\(\(\((u?)int(\d+)_t\)\s*§0§\s*(==|<=|<|>=|>|!=)\s*\((u?)int(\d+)_t\)\s*§1§\)\s*\?\s*1\s*:\s*0\)$", text)
+                why = None
+                if not m:
+                    why = "emitted text `%s` is not ((CAST)a OP (CAST)b)?1:0" % text
+                else:
+                    if m.group(3) != tok:
+                        why = "C operator `%s`, expected `%s`" % (m.group(3), tok)
+                    elif m.group(1) != sgn or m.group(4) != sgn:
+                        why = "operands cast to %sint / %sint, expected %sint (a %s comparison)" % (m.group(1), m.group(4), sgn, "signed" if sgn == "" else "unsigned")
+                    elif int(m.group(2)) != W or int(m.group(5)) != W:
+                        why = "cast width %s / %s, expected %d for %d-bit operands" % (m.group(2), m.group(5), W, asz)
+                    else:
+                        for k, name in enumerate("ab"):
+                            x = terms[k]
+                            inner = x.args[1] if isinstance(x, Term) and x.head in ("sext", "zext") else x
+                            wx = x.args[0] if isinstance(x, Term) and x.head in ("sext", "zext") else asz
+                            if not _is_leaf(inner, name) or wx != W or (sgn == "" and isinstance(x, Term) and x.head == "zext" and asz != W):
+                                why = "operand %d is `%r`, expected operand %s %s-extended to %d bits" % (k, x, name, "sign" if sgn == "" else "sign- or zero", W)
+                ck.ob(rid, "c:%s@%d:emitted" % (op, asz), why is None, where, "comparison %r on %d-bit operands: %s" % (op, asz, why))
+    except Undetermined as e:
+        raise AnalysisError("C translation of comparisons: construct not understood by the partial evaluator (%s)" % e)
+
+
+def c_associative_rules(ck, rid, where):
+    """An associative operator with three operands is emitted as (((a&M) OP (b&M) OP (c&M))&M), OP being the operator's own C token."""
+    import re
+    try:
+        for op in ("+", "*", "^", "&", "|"):
+            t = tt.c_term(ck.repo, op, 3, 16)
+            text, terms = tt.ctext_flat(t)
+            o = re.escape(op)
+            m = re.match(r"^\(\(\(§0§&0xffff\)\s*%s\s*\(§1§&0xffff\)\s*%s\s*\(§2§&0xffff\)\)&0xffff\)$" % (o, o), text)
+            ok = bool(m) and [_leafname(x) for x in terms] == ["a", "b", "c"]
+            ck.ob(rid, "c:%s:n-ary:emitted" % op, ok, where, "%r over three 16-bit operands is emitted as `%s` on %s" % (op, text, [repr(x) for x in terms]))
+    except Undetermined as e:
+        raise AnalysisError("C translation of associative operators: construct not understood by the partial evaluator (%s)" % e)
